@@ -202,13 +202,25 @@ def find_item(src, name, kind='fn', container=None, nth=0):
     # find end: first code '{' or ';' at paren/bracket depth 0 after kw
     depth = 0
     end = None
+    skip_until = -1
     for i, c in iter_code(src, kw):
+        if i <= skip_until:
+            continue
         if c in '([':
             depth += 1
         elif c in ')]':
             depth -= 1
         elif c == '{' and depth == 0:
-            end = match_brace(src, i) + 1
+            close = match_brace(src, i)
+            if kind == 'fn':
+                # a braced expression inside a header clause (`ensures r is Ok ==> { .. },`) is followed by a comma
+                k = close + 1
+                while k < len(src) and src[k] in ' \t\r\n':
+                    k += 1
+                if k < len(src) and src[k] == ',':
+                    skip_until = close
+                    continue
+            end = close + 1
             break
         elif c == ';' and depth == 0:
             end = i + 1
